@@ -537,15 +537,28 @@ func (o *oracles) checkRecovered(h *Host, st raft.VerifState) {
 	}
 	o.checkRecovery[h.id] = false
 	lg := o.ledgers[h.id]
+	sh := o.shadows[h.id]
 	s.ctx.Count("probe.recovery_checked", 1)
 	if st.Term < lg.maxTerm {
 		s.ctx.Violate("C04", "term-lost", "replica %d restarted with term %d, it had made term %d visible", st.ReplicaID, st.Term, lg.maxTerm)
 	}
+	if st.Term < sh.term {
+		s.ctx.Violate("C04", "term-lost", "replica %d restarted with term %d, a save of term %d had been reported durable", st.ReplicaID, st.Term, sh.term)
+	}
 	if v, ok := lg.voteOf[st.Term]; ok && st.Vote != v && st.Term == lg.maxTerm {
 		s.ctx.Violate("C04", "vote-lost", "replica %d restarted in term %d with vote %d, it had voted for %d", st.ReplicaID, st.Term, st.Vote, v)
 	}
-	if st.LastIndex < lg.maxAcked {
-		s.ctx.Violate("C04", "acked-entry-lost", "replica %d restarted with last index %d, it had acknowledged %d", st.ReplicaID, st.LastIndex, lg.maxAcked)
+	// every entry whose save was reported durable is still there (the shadow
+	// follows legitimate overwrites by newer leaders, so its end is what must
+	// have survived; acknowledgements were checked against it when they left)
+	if sh.last > 0 && sh.last > sh.ssIndex && !s.importMode {
+		if st.LastIndex < sh.last {
+			s.ctx.Violate("C04", "acked-entry-lost", "replica %d restarted with last index %d, saves up to index %d had been reported durable", st.ReplicaID, st.LastIndex, sh.last)
+		} else if p, ok := r.Peer().(*raft.Peer); ok {
+			if t, err := raft.VerifTermAt(p, sh.last); err == nil && t != sh.log[sh.last] && t != 0 {
+				s.ctx.Violate("C04", "acked-entry-lost", "replica %d restarted with term %d at index %d, the durable entry there had term %d", st.ReplicaID, t, sh.last, sh.log[sh.last])
+			}
+		}
 	}
 }
 
